@@ -230,8 +230,8 @@ def copies(idx, rep, rid):
     rep.analysed(fm, fh)
     okm = okh = True
     dm = dh = ""
-    for keep_memory in (False, True):
-        fs, ps = c19.cacher_history(idx, c19.stdlib_handlers(), ["a", "b"], keep_memory=keep_memory)
+    for keep_memory, monitor_first in ((False, False), (True, False), (False, True), (True, True)):
+        fs, ps = c19.cacher_history(idx, c19.stdlib_handlers(), ["a", "b"], keep_memory=keep_memory, monitor_first=monitor_first)
         if len(ps) != 1 or ps[0].result[0] != "return":
             okm = okh = False
             dm = dh = f"{[p.result for p in ps][:2]}"
